@@ -390,15 +390,6 @@ func (r *c14Run) settle() {
 	}
 	r.nfail++
 	r.fails = append(r.fails, fmt.Sprintf("settle#%d: replica did not reach the primary's state within %ds: %s", r.nsettle, int(r.bound.Seconds()), describeDiff(ps, rs)))
-	// known-finding classes (narrow, structural)
-	n := len(r.log)
-	switch {
-	case r.rotated:
-		r.kfs["primary_rotated_wal_after_start"] = true
-	case n >= 1 && len(sess) == 1 && fmt.Sprint(sess[0]["start_sequence"]) == fmt.Sprint(n) && scansEqual(rs, viewUpTo(r.log, n-1)):
-		// the session started at the number of the last write and the replica holds everything before it
-		r.kfs["last_write_equals_session_start"] = true
-	}
 }
 
 func parseBatchOps(lines [][]string, i int, n int) ([]rkv, int) {
@@ -451,7 +442,6 @@ func runC14(cs *Case, out func(string)) {
 		if !withTimeout(20*time.Second, func() { err = f() }) {
 			blocked = true
 			r.fails = append(r.fails, "primary "+what+" did not return within 20s (primary blocked while a replica is attached)")
-			r.kfs["primary_write_deadlock_with_replication"] = true
 			return fmt.Errorf("blocked")
 		}
 		return err
@@ -668,12 +658,11 @@ func (g *c14Gen) val() string {
 }
 func (g *c14Gen) emit(s string) { g.lines = append(g.lines, s) }
 
-// burst writes at least two sequence groups (a single one after the replica caught up is the
-// known finding last_write_equals_session_start and lives in the corpus)
+// burst writes min..max sequence groups; now and then a flush (log rotation) in between
 func (g *c14Gen) burst(min, max int) {
 	n := min + g.r.Intn(max-min+1)
-	if n < 2 {
-		n = 2
+	if g.r.Intn(3) == 0 {
+		defer g.emit("flush")
 	}
 	for i := 0; i < n; i++ {
 		switch pick(g.r, 5, 2, 2, 1) {
@@ -738,11 +727,14 @@ func genC14(w *bufio.Writer, seed int64, n int, tier string) {
 				shape = r.Intn(7)
 			}
 			switch shape {
-			case 0: // replica first, then two bursts
+			case 0: // replica first, then bursts (also of a single write: the last write must arrive)
 				g.emit("join")
-				g.burst(3, 8)
+				g.burst(1, 8)
 				g.emit("settle")
-				g.burst(2, 6)
+				g.burst(1, 2)
+				g.emit("settle")
+				g.emit("flush")
+				g.burst(1, 4)
 				g.emit("settle")
 			case 1: // writes (more than one response) before the replica exists
 				g.burst(2, 6)
